@@ -130,6 +130,54 @@ def sharing_family():
     return progs
 
 
+def labels_in(e, acc=None):
+    acc = acc if acc is not None else set()
+    if isinstance(e, tuple):
+        if e and e[0] == "trace":
+            acc.add(e[1])
+        for x in e[1:]:
+            labels_in(x, acc)
+    elif isinstance(e, list):
+        for x in e:
+            labels_in(x, acc)
+    return acc
+
+
+def known_same_value_equality(ip, bad):
+    """the known finding C13-equals-same-object-shortcut seen from C03: `v == v` / `v != v` on ONE array or object
+    value answers by pointer identity without evaluating the elements.  Narrow: every wrong label was NOT
+    evaluated by the code (count 0) and lies inside a binding of a variable that the program compares with
+    itself."""
+    if not bad or any(c != 0 or s2 < 1 for (_l, s2, c) in bad):
+        return None
+
+    def unwrap(x):
+        while isinstance(x, tuple) and x and x[0] == "trace":
+            x = x[2]
+        return x
+    selfcmp, binds = set(), {}
+
+    def walk(e):
+        if isinstance(e, tuple):
+            if e and e[0] == "bin" and e[1] in ("==", "!="):
+                a, b = unwrap(e[2]), unwrap(e[3])
+                if a[0] == "var" and a == b:
+                    selfcmp.add(a[1])
+            if e and e[0] == "local":
+                for n, b in e[1]:
+                    labels_in(b, binds.setdefault(n, set()))
+            for x in e[1:]:
+                walk(x)
+        elif isinstance(e, list):
+            for x in e:
+                walk(x)
+    walk(ip)
+    covered = set()
+    for n in selfcmp:
+        covered |= binds.get(n, set())
+    return "C03-equals-same-value-shortcut" if selfcmp and all(l in covered for (l, _s, _c) in bad) else None
+
+
 def correspond(run, binary, progs, exact_flags):
     failures = []
     inst = []
@@ -180,9 +228,13 @@ def correspond(run, binary, progs, exact_flags):
             what = ("an expression that call-by-need never evaluates was evaluated" if s == 0 else
                     "a needed expression was not evaluated" if c == 0 else
                     "a shared expression was evaluated a different number of times")
-            failures.append({"case": case, "summary": f"C03 {what}: label L{lab} sem={s} code={c}: {g.to_js(p)[:150]}",
-                             "expected": {"label": lab, "count": s}, "got": {"label": lab, "count": c},
-                             "all_bad": bad[:10]})
+            f = {"case": case, "summary": f"C03 {what}: label L{lab} sem={s} code={c}: {g.to_js(p)[:150]}",
+                 "expected": {"label": lab, "count": s}, "got": {"label": lab, "count": c},
+                 "all_bad": bad[:10]}
+            kid = known_same_value_equality(ip, bad)
+            if kid:
+                f["known"] = kid
+            failures.append(f)
         elif len(run.samples) < 5 and nlab > 12:
             run.samples.append({"jsonnet": src[:600], "labels_fired": sorted(sem_labels.items())[:20]})
     run.coverage["skipped_out_of_fuel_or_unsupported"] = run.coverage.get("skipped_out_of_fuel_or_unsupported", 0) + skipped
@@ -300,7 +352,16 @@ def probe_class(x):
 def memo_probe(run, binary):
     progs = memo_probe_programs()
     reqs = [{"code": code, "trace": True, "arrprobe": 0} for (_s, _w, code, _c, _l) in progs]
-    outs = core.run_harness(binary, "eval", reqs)
+    # observed, not judged: the gate of the object site (a failing assertion) is not one of the four cells
+    gate_req = {"code": 'local o = { assert std.trace("AS", false), f: std.trace("O", 1) }; [o.f, o.f, o.f]',
+                "trace": True, "arrprobe": 0}
+    outs = core.run_harness(binary, "eval", reqs + [gate_req])
+    g = outs.pop()
+    if "ok" in g and "get" in g["ok"]:
+        n_as = collections.Counter(g.get("traces", [])).get("AS", 0)
+        run.notes.append(f"object gate (not judged): a failing object assertion followed by 3 field reads through the Rust API "
+                         f"answered {[probe_class(x) for x in g['ok']['get']]} and ran the assertion {n_as} time(s), the field "
+                         f"body {collections.Counter(g.get('traces', [])).get('O', 0)} time(s)")
     failures = []
     for (site, what, code, cls, labels), req, o in zip(progs, reqs, outs):
         run.note_case("memo-probe:" + code, True)
